@@ -172,6 +172,20 @@ func Run(cfg Config) *hx.Result {
 	switch cfg.Prop {
 	case "C01":
 		x.runC01()
+	case "C03":
+		x.runC03()
+	case "C04":
+		x.runC04()
+	case "C06":
+		x.runC06()
+	case "C07":
+		x.runC07()
+	case "C09":
+		x.runC09()
+	case "C11":
+		x.runC11()
+	case "C13":
+		x.runC13()
 	}
 	return r
 }
